@@ -521,6 +521,9 @@ def canon_real_events(b, rec, arg2idx):
                 out.append(["cb", cbid, None, err == 0])
             elif isinstance(res, KeyError):
                 out.append(["cb", cbid, ["keyError", res.args[0]], err == 0])
+            elif isinstance(res, Exception) and re.match(r"wrong version, enabled version is (\d+), requested version is (\d+)$", str(res)):
+                m = re.match(r"wrong version, enabled version is (\d+), requested version is (\d+)$", str(res))
+                out.append(["cb", cbid, ["lowerVersion", int(m.group(1)), int(m.group(2))], err == 0])   # D71
             elif isinstance(res, BaseException):
                 out.append(["cb", cbid, ["raised", type(res).__name__], err == 0])
             else:
